@@ -1,5 +1,6 @@
 import VaxisModel.Driver.Common
 import VaxisModel.Model.InputLoop
+import VaxisModel.Model.InputQuery
 import VaxisModel.Spec.InputEvents
 
 /-! Driver for C03.  Stateful: a case is
@@ -369,6 +370,70 @@ def step (d : D) (line : String) : D × String :=
         else finish (run (params 1024 none) d.sys [.clipCall, .clipCancel]) "err" "err"
       | none => (d, "bad-op\tbad-op\tbad-op")
     | _, _ => (d, "bad-op\tbad-op\tbad-op")
+  | ["cquery", kind, idx, stale, reply] =>
+    -- a colour query: the real QueryColor/QueryForeground/QueryBackground against a terminal that answers with
+    -- `reply`, after an unsolicited `stale` reply; prediction = LTS run + the Sscanf model
+    match idx.toNat?, cps? ((stale.drop 6).toString), cps? ((reply.drop 6).toString) with
+    | some idx, some stalePl, some replyPl =>
+      let p := params 1024 none
+      let caps := d.sys.vs.caps
+      let (can, lit, drain) :=
+        if kind == "color" then (caps.osc4, VaxisModel.Model.InputQuery.litColor idx, VaxisModel.Model.InputQuery.colorDrainGen)
+        else if kind == "fg" then (caps.osc10, VaxisModel.Model.InputQuery.litFg, VaxisModel.Model.InputQuery.fgDrainGen)
+        else (caps.osc11, VaxisModel.Model.InputQuery.litBg, VaxisModel.Model.InputQuery.bgDrainGen)
+      let feed (s : Sys) (pl : List Nat) : Sys :=
+        match next p s (.input (.osc pl)) with
+        | some (.ok s1) => (perform {} p false 64 s1 #[] #[] none).1
+        | _ => s
+      let s1 := if stale == "stale=-" then d.sys else feed d.sys stalePl
+      let implRes := (impl.splitOn " ").headD ""
+      let bad := impl.contains "wedged" || implRes == "hang" || implRes == "panic"
+      if !can then
+        let s2 := { s1 with queue := [] }
+        let v := if bad then s!"FAIL the colour query or the input loop did not survive: {impl}"
+          else if implRes == "col=0" then "ok" else s!"FAIL the terminal did not advertise colour reports, the query must return Color(0), got {implRes}"
+        ({ d with sys := s2 }, s!"col=0 alive {canonState s2}\t{impl}\t{v}")
+      else
+        let clear (s : Sys) : Sys :=
+          if !drain then s else if kind == "color" then { s with color := [] } else if kind == "fg" then { s with fg := [] } else { s with bg := [] }
+        let take (s : Sys) : Option (List Nat) × Sys :=
+          if kind == "color" then (s.color.head?, { s with color := s.color.drop 1 })
+          else if kind == "fg" then (s.fg.head?, { s with fg := s.fg.drop 1 })
+          else (s.bg.head?, { s with bg := s.bg.drop 1 })
+        -- the requester receives as soon as it has written its query: a reply already parked in the channel is
+        -- taken before the terminal's answer has been handled (which is then parked in turn)
+        let s1' := clear s1
+        let (got, s3) : Option (List Nat) × Sys :=
+          match take s1' with
+          | (some pl, s) => (some pl, feed s replyPl)
+          | (none, _) => take (feed s1' replyPl)
+        let s3 := { s3 with queue := [] }
+        let res := match got with
+          | some pl => s!"col={VaxisModel.Model.InputQuery.colorOfReply lit pl}"
+          | none => "hang"
+        -- oracle: a reply `<prefix>rgb:h/h/h` (1–4 hexadecimal digits per channel, XParseColor) reports that colour
+        let want : Option Nat :=
+          match VaxisModel.Model.InputQuery.matchLit lit replyPl with
+          | none => none
+          | some body =>
+            match (String.ofList (body.map Char.ofNat)).splitOn "/" with
+            | [a, b, c] =>
+              match VaxisModel.Model.InputQuery.xparseChannel (a.toList.map Char.toNat), VaxisModel.Model.InputQuery.xparseChannel (b.toList.map Char.toNat),
+                    VaxisModel.Model.InputQuery.xparseChannel (c.toList.map Char.toNat) with
+              | some r, some g, some b => some (VaxisModel.Model.Color.rgbColor r g b)
+              | _, _, _ => none
+            | _ => none
+        let v := if bad then s!"FAIL the colour query or the input loop did not survive: {impl}"
+          else match want with
+            | some w =>
+              if implRes == s!"col={w}" then "ok"
+              else if stale != "stale=-" && implRes != res then s!"FAIL the terminal answered this query with colour {w}, the query returned {implRes}"
+              else if stale != "stale=-" && implRes != s!"col={VaxisModel.Model.InputQuery.colorOfReply lit replyPl}" then
+                s!"FAIL the terminal answered this query with colour {w}, but the query returned {implRes}: the unsolicited reply received earlier was taken for the answer"
+              else s!"FAIL the terminal answered this query with colour {w} (XParseColor scaling of the digits sent), the query returned {implRes}: channels wider or narrower than 8 bits are cut to their low byte"
+            | none => "ok"
+        ({ d with sys := s3 }, s!"{res} alive {canonState s3}\t{impl}\t{v}")
+    | _, _, _ => (d, "bad-op\tbad-op\tbad-op")
   | "race" :: ord :: r :: c :: r2 :: c2 :: seqf =>
     -- the cursor-position hand-off against the requester's time-out, as runs of the LTS (schedules forced
     -- on the real code through the yield point after the request flag is taken)
